@@ -2,10 +2,9 @@
 
    Models: SoftHSM.cpp (session / login / object entry points), SessionManager, HandleManager,
    SessionObjectStore, Token, SecureDataManager (symbolically), Slot/SlotManager.
-   Conventions: DESIGN.md §3.  Handles, lengths and flags are [N]; tokens are addressed by their
-   index in [st_tokens] (the model's slot id; index = length is the free slot). *)
+   Conventions: DESIGN.md §3.  Handles, lengths and flags are [N]; tokens are addressed by the
+   index k of their label "tok<k>" (the correspondence driver resolves slots by label). *)
 From Coq Require Import List NArith Bool.
-From SoftHSM Require Import Gen_Const.
 Import ListNotations.
 Local Open Scope N_scope.
 
@@ -20,7 +19,7 @@ Fixpoint bytes_eqb (a b : bytes) : bool :=
 
 Definition blen (b : bytes) : N := N.of_nat (length b).
 
-(* ---- association lists keyed by N (insertion ordered) ---------------------------------------- *)
+(* ---- association lists keyed by N ------------------------------------------------------------ *)
 Section Assoc.
   Context {A : Type}.
   Fixpoint alookup (k : N) (l : list (N * A)) : option A :=
@@ -37,11 +36,14 @@ Section Assoc.
     filter (fun p => negb (fst p =? k)) l.
   Definition amem (k : N) (l : list (N * A)) : bool :=
     match alookup k l with Some _ => true | None => false end.
+  Definition akeys (l : list (N * A)) : list N := map fst l.
 End Assoc.
 
+Definition nmem (x : N) (l : list N) : bool := existsb (N.eqb x) l.
+
 (* ---- stored attribute values (OSAttribute) ---------------------------------------------------- *)
-(* [ABytes (Some mk) pt] is the symbolic ciphertext of [pt] under master key [mk] (perfect-encryption
-   abstraction, DESIGN.md §3); [ABytes None b] is a clear byte string. *)
+(* [ABytes (Some k) pt] is the symbolic ciphertext of [pt] under the master key with identity [k]
+   (perfect-encryption abstraction, DESIGN.md §3); [ABytes None b] is a clear byte string. *)
 Inductive sattr :=               (* what may occur inside an attribute map (wrap/unwrap templates) *)
 | SBool (b : bool)
 | SULong (n : N)
@@ -61,109 +63,7 @@ Definition obj_bool (o : obj) (a : N) (dflt : bool) : bool :=
 Definition obj_ulong (o : obj) (a : N) (dflt : N) : N :=
   match alookup a o with Some (AULong n) => n | _ => dflt end.
 
-(* ---- tokens ---------------------------------------------------------------------------------------- *)
-Inductive login := LNone | LSO | LUser.
-
-Record token := mkToken {
-  t_label   : bytes;              (* 32 bytes *)
-  t_sopin   : option bytes;       (* the PIN the SO blob is wrapped under (ghost of the blob) *)
-  t_userpin : option bytes;       (* None = user PIN not initialised *)
-  t_flags   : N;                  (* CKA_OS_TOKENFLAGS as stored *)
-  t_login   : login;
-  t_mk      : N;                  (* identity of the master key wrapped in both blobs *)
-  t_objs    : list (N * obj)      (* token objects, keyed by model object id *)
-}.
-
-(* ---- sessions, handles, session objects ----------------------------------------------------- *)
-Record session := mkSession {
-  s_slot   : nat;
-  s_rw     : bool;
-  s_op     : N;                   (* SESSION_OP_* *)
-  s_find   : list N;              (* handles still to be returned by C_FindObjects, ascending *)
-  s_reauth : bool
-}.
-
-Record hentry := mkHandle {
-  h_kind : N;                     (* CKH_SESSION / CKH_OBJECT *)
-  h_slot : nat;
-  h_sess : N;                     (* owning session for session objects, CK_INVALID_HANDLE otherwise *)
-  h_priv : bool;
-  h_oid  : N                      (* object id (0 for sessions) *)
-}.
-
-Record sobj := mkSObj {
-  so_slot : nat;
-  so_sess : N;
-  so_priv : bool;
-  so_obj  : obj
-}.
-
-Record state := mkState {
-  st_init     : bool;
-  st_tokens   : list token;
-  st_sessions : list (N * session);     (* keyed by the API session handle *)
-  st_handles  : list (N * hentry);      (* HandleManager::handles, ascending by construction *)
-  st_counter  : N;                      (* HandleManager::handleCounter *)
-  st_sobjs    : list (N * sobj);        (* SessionObjectStore::objects, keyed by object id *)
-  st_next_oid : N;
-  st_next_mk  : N
-}.
-
-Definition init_state : state :=
-  mkState false [] [] [] 0 [] 1 1.
-
-(* record update helpers *)
-Definition set_tokens (s : state) (ts : list token) : state :=
-  mkState (st_init s) ts (st_sessions s) (st_handles s) (st_counter s) (st_sobjs s) (st_next_oid s) (st_next_mk s).
-Definition set_sessions (s : state) (x : list (N * session)) : state :=
-  mkState (st_init s) (st_tokens s) x (st_handles s) (st_counter s) (st_sobjs s) (st_next_oid s) (st_next_mk s).
-Definition set_handles (s : state) (x : list (N * hentry)) : state :=
-  mkState (st_init s) (st_tokens s) (st_sessions s) x (st_counter s) (st_sobjs s) (st_next_oid s) (st_next_mk s).
-Definition set_counter (s : state) (c : N) : state :=
-  mkState (st_init s) (st_tokens s) (st_sessions s) (st_handles s) c (st_sobjs s) (st_next_oid s) (st_next_mk s).
-Definition set_sobjs (s : state) (x : list (N * sobj)) : state :=
-  mkState (st_init s) (st_tokens s) (st_sessions s) (st_handles s) (st_counter s) x (st_next_oid s) (st_next_mk s).
-Definition set_next_oid (s : state) (n : N) : state :=
-  mkState (st_init s) (st_tokens s) (st_sessions s) (st_handles s) (st_counter s) (st_sobjs s) n (st_next_mk s).
-Definition set_next_mk (s : state) (n : N) : state :=
-  mkState (st_init s) (st_tokens s) (st_sessions s) (st_handles s) (st_counter s) (st_sobjs s) (st_next_oid s) n.
-
-Definition set_t_login (t : token) (l : login) : token :=
-  mkToken (t_label t) (t_sopin t) (t_userpin t) (t_flags t) l (t_mk t) (t_objs t).
-Definition set_t_flags (t : token) (f : N) : token :=
-  mkToken (t_label t) (t_sopin t) (t_userpin t) f (t_login t) (t_mk t) (t_objs t).
-Definition set_t_objs (t : token) (o : list (N * obj)) : token :=
-  mkToken (t_label t) (t_sopin t) (t_userpin t) (t_flags t) (t_login t) (t_mk t) o.
-Definition set_t_userpin (t : token) (p : option bytes) : token :=
-  mkToken (t_label t) (t_sopin t) p (t_flags t) (t_login t) (t_mk t) (t_objs t).
-Definition set_t_sopin (t : token) (p : option bytes) : token :=
-  mkToken (t_label t) p (t_userpin t) (t_flags t) (t_login t) (t_mk t) (t_objs t).
-
-Fixpoint list_set {A} (n : nat) (x : A) (l : list A) : list A :=
-  match l, n with
-  | [], _ => []
-  | _ :: r, O => x :: r
-  | y :: r, S n' => y :: list_set n' x r
-  end.
-
-Definition upd_token (s : state) (k : nat) (f : token -> token) : state :=
-  match nth_error (st_tokens s) k with
-  | Some t => set_tokens s (list_set k (f t) (st_tokens s))
-  | None => s
-  end.
-
-Definition upd_session (s : state) (h : N) (f : session -> session) : state :=
-  match alookup h (st_sessions s) with
-  | Some x => set_sessions s (aset h (f x) (st_sessions s))
-  | None => s
-  end.
-
-Definition set_s_op (x : session) (op : N) (fnd : list N) : session :=
-  mkSession (s_slot x) (s_rw x) op fnd (s_reauth x).
-Definition set_s_reauth (x : session) (b : bool) : session :=
-  mkSession (s_slot x) (s_rw x) (s_op x) (s_find x) b.
-
-(* flag arithmetic on token flags *)
-Definition fset (f b : N) : N := N.lor f b.
-Definition fclr (f b : N) : N := N.ldiff f b.
-Definition ftest (f b : N) : bool := negb (N.land f b =? 0).
+Fixpoint le_decode (b : bytes) : N :=
+  match b with [] => 0 | x :: r => x + 256 * le_decode r end.
+Fixpoint le_encode (n : nat) (x : N) : bytes :=
+  match n with O => [] | S k => (x mod 256) :: le_encode k (x / 256) end.
